@@ -8,7 +8,7 @@ the callee -- never from text.
 """
 import re
 
-from mirlib import BranchFacts, strip, deep_strip, show, walk, const_value
+from mirlib import closures_created_in, resolve_captures, BranchFacts, strip, deep_strip, show, walk, const_value
 from rulelib import _norm_fact, underlying_calls, return_assignments, cyclic_blocks
 
 MAX_PATHS = 400
@@ -547,32 +547,123 @@ def cmp_kind(fn, targs):
 
 def cmp_sequence(b, F):
     """Ordered list of (field, kind) comparisons in dominance order (first
-    occurrence per field)."""
+    occurrence per field).  Comparisons made inside closures the function
+    creates (`a.cmp(b).then_with(|| c.cmp(d))`) count at the position where
+    the closure is created, in creation order."""
     seq = []
-    for bi in b.reachable_blocks():
-        t = b.blocks[bi]["t"]
-        if t["k"] == "call" and t["fn"] and len(t["args"]) >= 2:
-            k = cmp_kind(t["fn"], t["targs"])
-            if k is None:
-                continue
-            fx = field_path(b.term_of_operand(t["args"][0]), 1)
-            fy = field_path(b.term_of_operand(t["args"][1]), 2)
-            if fx is None or fy is None or fx == "":
-                continue
-            seq.append((bi, fx, fy, k))
-        for st in b.blocks[bi]["s"]:
-            if st[0] == "=" and st[2][0] == "bin" and st[2][1] in ("Eq", "Ne", "Lt", "Le", "Gt", "Ge"):
-                fx = field_path(b.term_of_operand(st[2][2]), 1)
-                fy = field_path(b.term_of_operand(st[2][3]), 2)
-                if fx and fy:
-                    seq.append((bi, fx, fy, "ord:raw"))
+
+    def scan(body, pos, res):
+        for bi in sorted(body.reachable_blocks()):
+            t = body.blocks[bi]["t"]
+            here = pos + (bi,) if body is b else pos
+            if t["k"] == "call" and t["fn"] and len(t["args"]) >= 2:
+                k = cmp_kind(t["fn"], t["targs"])
+                if k is not None:
+                    fx = field_path(res(body.term_of_operand(t["args"][0])), 1)
+                    fy = field_path(res(body.term_of_operand(t["args"][1])), 2)
+                    if not (fx is None or fy is None or fx == ""):
+                        seq.append((here, bi if body is b else None, fx, fy, k))
+            for st in body.blocks[bi]["s"]:
+                if st[0] == "=" and st[2][0] == "bin" and st[2][1] in ("Eq", "Ne", "Lt", "Le", "Gt", "Ge"):
+                    fx = field_path(res(body.term_of_operand(st[2][2])), 1)
+                    fy = field_path(res(body.term_of_operand(st[2][3])), 2)
+                    if fx and fy:
+                        seq.append((here, bi if body is b else None, fx, fy, "ord:raw"))
+
+    scan(b, (), lambda t: t)
+    n = 0
+
+    def closures(body, pos, depth):
+        nonlocal n
+        if depth > 2:
+            return
+        for bi, cb, ops in closures_created_in(F, body):
+            n += 1
+            p2 = (pos + (bi,) if body is b else pos) + (("c", n),)
+            scan(cb, p2, lambda t, cb=cb: resolve_captures(F, cb, t))
+            closures(cb, p2, depth + 1)
+    closures(b, (), 0)
     first = {}
-    for bi, fx, fy, k in seq:
-        if fx not in first:
-            first[fx] = (bi, fx, fy, k)
+    for item in seq:
+        if item[2] not in first:
+            first[item[2]] = item
     items = list(first.values())
-    items.sort(key=lambda s: sum(1 for o in items if o is not s and b.dominates(o[0], s[0])))
-    return [(fx, fy, k) for _, fx, fy, k in items]
+
+    def before(o, s):
+        """o is evaluated before s on every path: block dominance in b; closure items follow
+        the block that creates them and keep creation order"""
+        ob, sb = o[0][0], s[0][0]
+        if ob != sb:
+            return b.dominates(ob, sb)
+        return o[0][1:] < s[0][1:]
+    items.sort(key=lambda s: sum(1 for o in items if o is not s and before(o, s)))
+    return [(fx, fy, k) for _, _, fx, fy, k in items]
+
+
+def compare_sites(b, F, comparators=None):
+    """Two-operand comparison sites of b and of the closures it creates, in
+    evaluation order: [(body, block, what, x_term, y_term)] with the operand
+    terms expressed over b's parameters (captures resolved)."""
+    out = []
+
+    def scan(body, pos, res):
+        for bi in sorted(body.reachable_blocks()):
+            here = (pos + (bi,)) if body is b else pos + (("z", bi),)
+            for st in body.blocks[bi]["s"]:
+                if st[0] == "=" and st[2][0] == "bin" and st[2][1] in ("Eq", "Ne", "Lt", "Le", "Gt", "Ge"):
+                    out.append((here, body, bi, st[2][1], res(body.term_of_operand(st[2][2])), res(body.term_of_operand(st[2][3]))))
+            t = body.blocks[bi]["t"]
+            if t["k"] == "call" and len(t["args"]) == 2 and t["fn"] and (comparators is None or comparators.search(t["fn"])):
+                out.append((here, body, bi, t["fn"].split("::")[-1], res(body.term_of_operand(t["args"][0])),
+                            res(body.term_of_operand(t["args"][1]))))
+
+    scan(b, (), lambda t: t)
+    n = [0]
+
+    def closures(body, pos, depth):
+        if depth > 2:
+            return
+        for bi, cb, ops in closures_created_in(F, body):
+            n[0] += 1
+            p2 = ((pos + (bi,)) if body is b else pos) + (("c", n[0]),)
+            scan(cb, p2, lambda t, cb=cb: resolve_captures(F, cb, t))
+            closures(cb, p2, depth + 1)
+    closures(b, (), 0)
+
+    def before(o, s):
+        if o[0][0] != s[0][0]:
+            return b.dominates(o[0][0], s[0][0])
+        return tuple(map(str, o[0][1:])) < tuple(map(str, s[0][1:]))
+    out.sort(key=lambda s: sum(1 for o in out if o is not s and before(o, s)))
+    return [(body, bi, what, x, y) for _, body, bi, what, x, y in out]
+
+
+def callees_deep(F, b, depth=2, scope=None, seen=None):
+    """[(body, block, terminator)] of every call in b, in the closures it
+    creates and in the crate-local helpers it calls (same top-level module, or
+    matching `scope`), `depth` levels deep: the rules that ask "does this
+    function use X" keep holding when a few lines are moved into a private
+    helper or a closure."""
+    seen = seen if seen is not None else set()
+    if b.path in seen:
+        return []
+    seen.add(b.path)
+    out = []
+    top = b.path.lstrip("<").split("::")[0]
+    for bi, t in b.calls():
+        out.append((b, bi, t))
+        if depth > 0:
+            for nm in (t.get("res"), t.get("fn")):
+                cb = F.bodies.get(nm) if nm else None
+                if cb is None or cb is b:
+                    continue
+                local = nm.lstrip("<").split("::")[0] == top if scope is None else bool(scope.search(nm))
+                if local:
+                    out += callees_deep(F, cb, depth - 1, scope, seen)
+                    break
+    for bi, cb, ops in closures_created_in(F, b):
+        out += callees_deep(F, cb, depth, scope, seen)
+    return out
 
 
 # ---------------------------------------------------------------------------
@@ -605,6 +696,28 @@ def inherent_fn(F, adt, name):
     """Bodies of inherent fns `adt::<..>::name`."""
     rx = re.compile("^" + re.escape(adt) + r"::<[^>]*(<[^>]*>[^>]*)*>::" + re.escape(name) + "$|^" + re.escape(adt) + "::" + re.escape(name) + "$")
     return [b for p, b in F.bodies.items() if rx.match(p)]
+
+
+def rdlen_compress_agreement(F):
+    """[(adt, rdlen body, ok, names)] for every record type whose compose_rdata
+    compresses a name when the target can compress: its rdlen(compress=true)
+    must not announce a length (None), because the octets written depend on
+    what the compressor finds."""
+    from rulelib import bool_facts
+    out = []
+    for adt, im in sorted(rdata_types(F).items()):
+        cb = impl_fn(F, im, "compose_rdata")
+        rb = impl_fn(F, im, "rdlen")
+        if cb is None or rb is None:
+            continue
+        t_alts, f_alts, cc = compose_split(cb, F)
+        names = sorted({f for _, toks in t_alts for f, k, _ in toks if k == "name:compress"})
+        if not names:
+            continue
+        somes = [r for r in return_assignments(rb) if r[2] == "Some"]
+        ok = all(any(deep_strip(tt) == ("arg", 2) and vv is False for tt, vv in bool_facts(rb, r[0], F)) for r in somes)
+        out.append((adt, rb, ok, names))
+    return out
 
 
 # ---------------------------------------------------------------------------
